@@ -315,6 +315,17 @@ func Build(seed uint64, flags int) *Result {
 				b.w("r"), b.w("drawing"), i+1, i+1, i+1, esc(name), id, b.w("drawing"), b.w("r")), "")
 		}
 	}
+	if flags&FBodyImages != 0 && r.Bool() {
+		// a JPEG registered the way Word does it: extension "jpg" (or "JPG") for image/jpeg
+		ext := r.Pick("jpg", "jpg", "JPG", "jpe")
+		name := "photo." + ext
+		b.def(ext, "image/jpeg")
+		b.put("word/media/"+name, string(append([]byte{0xFF, 0xD8, 0xFF, 0xE0, 0, 0x10, 'J', 'F', 'I', 'F', 0}, []byte(fmt.Sprintf("uniqjpg%08d", seed%100000000))...)))
+		mediaMain = append(mediaMain, "word/media/"+name)
+		id := b.addRel(nsR+"/image", "media/"+name, "")
+		para(fmt.Sprintf("<%s><%s><wp:inline distT=\"0\" distB=\"0\" distL=\"0\" distR=\"0\"><wp:extent cx=\"952500\" cy=\"952500\"/><wp:docPr id=\"77\" name=\"Photo\"/><a:graphic><a:graphicData uri=\"http://schemas.openxmlformats.org/drawingml/2006/picture\"><pic:pic><pic:nvPicPr><pic:cNvPr id=\"77\" name=\"%s\"/><pic:cNvPicPr/></pic:nvPicPr><pic:blipFill><a:blip r:embed=\"%s\"/><a:stretch><a:fillRect/></a:stretch></pic:blipFill><pic:spPr><a:xfrm><a:off x=\"0\" y=\"0\"/><a:ext cx=\"952500\" cy=\"952500\"/></a:xfrm><a:prstGeom prst=\"rect\"><a:avLst/></a:prstGeom></pic:spPr></pic:pic></a:graphicData></a:graphic></wp:inline></%s></%s>",
+			b.w("r"), b.w("drawing"), esc(name), id, b.w("drawing"), b.w("r")), "")
+	}
 	sect := ""
 	if flags&FHeaderMedia != 0 {
 		hid := b.addRel(nsR+"/header", "header1.xml", "")
